@@ -262,3 +262,20 @@ func (f *vpMemFileTrunc) Truncate(size int64) error {
 	}
 	return nil
 }
+
+// vpOnlyKnownEntries: every header slot in use in the file image belongs to one
+// of the listed chunks or to the coordinate being written - no write landed in
+// the header slot of an absent chunk (the per-coordinate absence checks look at
+// the coordinate set only; this one looks at all 1024 slots at once).
+func vpOnlyKnownEntries(image []byte, chunks []vpChunk, x, z int) {
+	hdr := append([]byte{}, image[:4096]...)
+	clear4 := func(cx, cz int) {
+		h := 4 * (cz*32 + cx)
+		hdr[h], hdr[h+1], hdr[h+2], hdr[h+3] = 0, 0, 0, 0
+	}
+	clear4(x, z)
+	for _, c := range chunks {
+		clear4(c.x, c.z)
+	}
+	vp.Assert(string(hdr) == string(make([]byte, 4096)), "absent chunk still absent after crash")
+}
